@@ -396,7 +396,7 @@ def build_callbacks(cfg, R, plan, nn_state, tmpdir):
             if kind == "metric":
                 def metric(nn, _i=i, _d=d, **kw):
                     R.hist.append(dict(k="EV", cb=_i, ep=R.cur_ep))
-                    v = cfg["vals"][R.cur_ep]
+                    v = cfg["vals"][R.cur_ep] * cfg.get("scale", 1.0)
                     vk = _d.get("vkind") or ("np" if _d.get("np") else "float")
                     if vk == "tensor0d":
                         return torch.tensor(float(v), dtype=torch.double)        # what a user metric may well return
@@ -419,7 +419,7 @@ def build_callbacks(cfg, R, plan, nn_state, tmpdir):
 
                 def stats(nn, _i=i, **kw):
                     R.hist.append(dict(k="EV", cb=_i, ep=R.cur_ep))
-                    v, var = cfg["vals"][R.cur_ep], cfg["vars"][R.cur_ep]
+                    v, var = cfg["vals"][R.cur_ep] * cfg.get("scale", 1.0), cfg["vars"][R.cur_ep] * cfg.get("scale", 1.0) ** 2
                     return {"SigmaZ": {"mean": float(v), "variance": float(var),
                                        "std_error": float(var) ** 0.5 / 2.0, "num_samples": 4}}
                 ev.system.statistics = stats
@@ -446,6 +446,10 @@ def build_callbacks(cfg, R, plan, nn_state, tmpdir):
         elif t == "early":
             evcb = objs[d["ev"] - 1]
             tol = float("inf") if d["tolD"] == 0 else d["tolN"] / d["tolD"]
+            if d["crit"] == "absolute":
+                # the documented rule is homogeneous: monitored values scaled by a power of two (exact in binary
+                # floating point) and, for the absolute criterion, the tolerance with them, decide identically
+                tol *= abs(cfg.get("scale", 1.0))
             name = "m" if isinstance(evcb, MetricEvaluator) else "SigmaZ"
             if d.get("deprecated"):
                 import warnings
@@ -462,6 +466,26 @@ def build_callbacks(cfg, R, plan, nn_state, tmpdir):
         else:
             raise common.MachineryError("unknown callback descriptor %r" % (d,))
     return objs
+
+
+_CB_FORM = [0]
+
+
+def _callbacks_arg(cbs):
+    """The `callbacks` argument in the forms a caller may use: the documented list, a tuple, a CallbackList, and
+    one-shot iterables (fit() builds CallbackList(callbacks), which copies any iterable once)."""
+    from qucumber.callbacks import CallbackList
+    _CB_FORM[0] += 1
+    form = _CB_FORM[0] % 6
+    if form == 1:
+        return tuple(cbs)
+    if form == 2:
+        return CallbackList(list(cbs))
+    if form == 3:
+        return iter(list(cbs))
+    if form == 4:
+        return (c for c in list(cbs))
+    return cbs
 
 
 def real_run(cfg, plan=(), seed=0, k=1, lr=0.05, numeric_hook=None, time_flag=False,
@@ -556,7 +580,7 @@ def real_run(cfg, plan=(), seed=0, k=1, lr=0.05, numeric_hook=None, time_flag=Fa
         rng0 = common.sha(torch.get_rng_state().numpy().tobytes())
         kwargs = dict(epochs=cfg["epochs"], pos_batch_size=cfg["posB"],
                       neg_batch_size=(cfg["negB"] if cfg["negB"] else None), k=k, lr=lr,
-                      starting_epoch=cfg["startEp"], callbacks=cbs, time=time_flag,
+                      starting_epoch=cfg["startEp"], callbacks=_callbacks_arg(cbs), time=time_flag,
                       optimizer=make_optimizer(R, opt_base))
         # the caller's own dictionaries are handed over (not copies): they are the caller's, fit() may read them only
         if opt_args is not None:
@@ -578,12 +602,13 @@ def real_run(cfg, plan=(), seed=0, k=1, lr=0.05, numeric_hook=None, time_flag=Fa
         torch.save = orig_torch_save
         # final projection
         cbstate = []
+        S = cfg.get("scale", 1.0)          # records are projected back to the specification's unit (power of two: exact)
         for d, o in zip(cfg["cbs"], cbs):
             if d["t"] == "eval":
                 if isinstance(o, MetricEvaluator):
-                    cbstate.append([[int(e), float(v["m"]), None] for e, v in o.past_values])
+                    cbstate.append([[int(e), float(v["m"]) / S, None] for e, v in o.past_values])
                 else:
-                    cbstate.append([[int(e), v["SigmaZ"]["mean"], v["SigmaZ"]["variance"]] for e, v in o.past_values])
+                    cbstate.append([[int(e), v["SigmaZ"]["mean"] / S, v["SigmaZ"]["variance"] / S ** 2] for e, v in o.past_values])
             elif d["t"] == "saver":
                 cbstate.append([[nm, None] for nm in R.saved.get(len(cbstate) + 1, [])])
             elif d["t"] == "logger":
